@@ -143,7 +143,7 @@ def run_life(case):
             # the device's parameter values differ from session to session
             for i_, p_ in enumerate(spec['param_toc']):
                 env.device.values[i_] = (ai * 3 + i_ + 1) if p_['type'] not in (6, 7) else ai * 1.5 + i_
-            if not at.get('final') and at.get('close_at') is None and not at.get('fault'):
+            if not at.get('final') and at.get('close_at') is None and not at.get('fault') and not (at.get('close_in_cb') and not at.get('sync')):
                 at = dict(at, close_at=3.0)
             elif not at.get('final') and at.get('close_at') is None:
                 at = dict(at, close_at=25.0, late_close=True)   # the fault may never fire (k beyond the traffic): close eventually
@@ -207,6 +207,10 @@ def run_life(case):
                             ev_caller.remove_callback(closer)
                         except ValueError:
                             pass
+                        if not fired and at.get('close_at') is None and not at.get('fault'):
+                            at = dict(at, close_at=0.0)      # the notification never came (e.g. no parameters): close now
+                        elif fired and at.get('close_at') is None:
+                            out.feat('closed-only-from-notification')
                     if at.get('close_at') is not None:
                         s.sleep(at['close_at'])
                         if not (at.get('late_close') and cf.link is None):
@@ -244,6 +248,8 @@ def run_life(case):
                 break
             if (nerr or closes[0]) and cf.link is not None:
                 out.fail('life:link-not-released', '%s: link still set after %s' % (desc, 'fault' if nerr else 'close'))
+            if (nerr or closes[0]) and cf.link is None and getattr(cf.state, 'name', cf.state) not in ('DISCONNECTED', 0):
+                out.fail('life:state-not-disconnected', '%s: state %r at quiescence after %s; events %r' % (desc, cf.state, 'fault' if nerr else 'close', evs))
             send_lock = getattr(cf, '_send_lock', None)
             if send_lock is not None and send_lock.locked():
                 owner = send_lock.owner
